@@ -2,18 +2,22 @@
 #ifndef VERIF_UBLAS_HPP
 #define VERIF_UBLAS_HPP
 #include <cstddef>
+#include <limits>
 #include <vector>
 #include <stdexcept>
 #include <cmath>
 #include <utility>
 namespace boost { namespace numeric { namespace ublas {
+template <class T> inline T verif_poison() { return std::numeric_limits<T>::has_quiet_NaN ? std::numeric_limits<T>::quiet_NaN() : T(); }
 template <class T> class vector {
     std::vector<T> d_;
    public:
     typedef T value_type;
     typedef std::size_t size_type;
     vector() {}
-    explicit vector(std::size_t n) : d_(n) {}
+    /* Boost leaves the elements of a sized vector / matrix of doubles uninitialised: modelled by a poison value
+       (quiet NaN), so that code relying on zero-initialisation shows */
+    explicit vector(std::size_t n) : d_(n, verif_poison<T>()) {}
     vector(std::size_t n, const T &v) : d_(n, v) {}
     std::size_t size() const { return d_.size(); }
     void resize(std::size_t n) { d_.resize(n); }
@@ -39,7 +43,7 @@ template <class T> class matrix {
    public:
     typedef T value_type;
     matrix() : r_(0), c_(0) {}
-    matrix(std::size_t r, std::size_t c) : r_(r), c_(c), d_(r * c) {}
+    matrix(std::size_t r, std::size_t c) : r_(r), c_(c), d_(r * c, verif_poison<T>()) {}
     matrix &operator=(const zero_matrix<T> &z) { r_ = z.size1(); c_ = z.size2(); d_.assign(r_ * c_, T(0)); return *this; }
     std::size_t size1() const { return r_; }
     std::size_t size2() const { return c_; }
